@@ -1,8 +1,286 @@
-/- EmdModel.Phase — (stub; filled in by the property that owns it) -/
+/-
+  EmdModel.Phase — model of the phase / frequency conversions of emd (C09).
+
+    emd/utils.py    wrap_phase, amplitude_normalise
+    emd/spectra.py  freq_from_phase, phase_from_freq, quadrature_transform,
+                    phase_from_complex_signal, frequency_transform
+
+  Everything is exact rational arithmetic on one column (the implementation
+  works column by column along axis 0).  Float constants (`2π`, `π/2`) are
+  parameters holding the exact value of the double.  Library numerics are
+  oracle parameters:
+
+    * `H : Sig → Sig × Sig` — analytic-signal phase and amplitude of one IMF
+      (`scipy.signal.hilbert`, `np.angle`, `np.unwrap`, `scipy.signal.medfilt`,
+      `np.abs`, the envelope interpolation used for the nht / quad amplitude);
+    * `E : Nat → Sig → Option Sig` — the combined envelope used by
+      `amplitude_normalise` (iteration index, iterate ↦ envelope or `None`);
+    * the table `s = sqrt(1 − nX²)` of the quadrature transform.
+
+  `np.gradient`, `np.cumsum`, `%` and `np.unwrap` are modelled exactly (their
+  algorithms are index arithmetic) and compared with numpy on every run.
+-/
 import EmdModel.Protocol
 
 namespace Phase
 
-def handle (_o : Protocol.Op) : Option String := none
+/-! ## wrap: numpy's `x % m` -/
+
+/-- `x % m` for `m > 0` (sign of the divisor): `x − m·⌊x/m⌋` -/
+def wrap (m x : Rat) : Rat := x - m * ((x / m).floor : Rat)
+
+/-- `wrap_phase(mode='-pi2pi')`: `(x + h) % m − h` -/
+def wrapCentered (m h x : Rat) : Rat := wrap m (x + h) - h
+
+/-! ## gradient, cumulative sum -/
+
+def getR (x : List Rat) (i : Nat) : Rat := x[i]?.getD 0
+
+/-- `np.gradient(x)` at index `i` (unit spacing, `edge_order=1`): one-sided first
+    differences at the two ends, central differences in the interior -/
+def gradAt (x : List Rat) (i : Nat) : Rat :=
+  if i = 0 then getR x 1 - getR x 0
+  else if i + 1 = x.length then getR x i - getR x (i - 1)
+  else (getR x (i + 1) - getR x (i - 1)) / 2
+
+def gradient (x : List Rat) : List Rat := (List.range x.length).map (gradAt x)
+
+/-- `np.gradient` raises `ValueError` on fewer than 2 samples -/
+def gradient? (x : List Rat) : Option (List Rat) :=
+  if x.length < 2 then none else some (gradient x)
+
+/-- running sum started at `acc` -/
+def cumsumFrom (acc : Rat) : List Rat → List Rat
+  | [] => []
+  | a :: t => (acc + a) :: cumsumFrom (acc + a) t
+
+def cumsum (x : List Rat) : List Rat := cumsumFrom 0 x
+
+/-- `np.diff` -/
+def diff : List Rat → List Rat
+  | a :: b :: t => (b - a) :: diff (b :: t)
+  | _ => []
+
+/-! ## freq_from_phase / phase_from_freq -/
+
+/-- `np.gradient(iphase) / (2π) * sample_rate` -/
+def freqFromPhase (twoPi sr : Rat) (p : List Rat) : List Rat :=
+  (gradient p).map fun g => g / twoPi * sr
+
+/-- `phase_start + np.cumsum(ifrequency / sample_rate * 2π)` -/
+def phaseFromFreq (twoPi sr start : Rat) (f : List Rat) : List Rat :=
+  (cumsum (f.map fun v => v / sr * twoPi)).map fun c => start + c
+
+/-! ## phase_from_complex_signal after its library part -/
+
+/-- `phase_from_complex_signal` given `U` = unwrapped (and median-smoothed) angle of the complex
+    signal: add the phase-jump offset (`π/2` ascending, `0` peak, `-π/2` descending, `π` trough)
+    and wrap on request -/
+def phaseFromComplex (off twoPi : Rat) (wrapped : Bool) (U : List Rat) : List Rat :=
+  let P := U.map fun u => u + off
+  if wrapped then P.map (wrap twoPi) else P
+
+/-! ## frequency_transform around the analytic-signal oracle -/
+
+/-- `frequency_transform` on one column.  `H imf = (U, A)`: `U` the smoothed
+    unwrapped angle of the analytic signal, `A` the instantaneous amplitude.
+    The implementation adds the quarter cycle (`phase_jump='ascending'`),
+    differentiates, and wraps the very same phase for output. -/
+def frequencyTransform (H : List Rat → List Rat × List Rat) (halfPi twoPi sr : Rat)
+    (x : List Rat) : List Rat × List Rat × List Rat :=
+  let UA := H x
+  let P := UA.1.map fun u => u + halfPi
+  (P.map (wrap twoPi), freqFromPhase twoPi sr P, UA.2)
+
+/-- analytic-signal pipeline of the `hilbert` branch with its library pieces as oracles -/
+structure Analytic where
+  hilbert : List Rat → List (Rat × Rat)   -- scipy.signal.hilbert: (re, im) per sample
+  angle : Rat × Rat → Rat                 -- np.angle
+  abs : Rat × Rat → Rat                   -- np.abs
+  post : List Rat → List Rat              -- np.unwrap followed by medfilt(·, 5)
+
+/-- `hilbert` branch: phase and amplitude both from the analytic signal -/
+def Analytic.hilbertH (O : Analytic) (x : List Rat) : List Rat × List Rat :=
+  let z := O.hilbert x
+  (O.post (z.map O.angle), z.map O.abs)
+
+/-- `nht` branch: phase from the analytic signal of the amplitude-normalised IMF,
+    amplitude from the upper envelope `env` of the IMF itself -/
+def Analytic.nhtH (O : Analytic) (norm env : List Rat → List Rat) (x : List Rat) :
+    List Rat × List Rat :=
+  (O.post ((O.hilbert (norm x)).map O.angle), env x)
+
+/-! ## np.unwrap (period `m`, default discontinuity `m/2`) -/
+
+def absR (v : Rat) : Rat := if v < 0 then -v else v
+
+/-- correction added from one sample on, given the raw difference `dd` to the previous sample -/
+def unwrapCorr (m dd : Rat) : Rat :=
+  let h := m / 2
+  let ddmod0 := wrap m (dd + h) - h
+  let ddmod := if ddmod0 = -h ∧ 0 < dd then h else ddmod0
+  if absR dd < h then 0 else ddmod - dd
+
+def unwrap (m : Rat) : List Rat → List Rat
+  | [] => []
+  | a :: t => a :: List.zipWith (· + ·) t (cumsum ((diff (a :: t)).map (unwrapCorr m)))
+
+/-! ## quadrature_transform -/
+
+/-- `((np.diff(nX) > 0) * -2) + 1`, last entry repeated -/
+def quadMask (nX : List Rat) : List Rat :=
+  let d := (diff nX).map fun v => if 0 < v then (-1 : Rat) else 1
+  match d.getLast? with
+  | some l => d ++ [l]
+  | none => []
+
+/-- imaginary part of the quadrature signal: `sqrt(1 − nX²) * mask` with `s` the sqrt table;
+    `none` where the implementation raises `IndexError` (fewer than 2 samples) -/
+def quadImag? (nX s : List Rat) : Option (List Rat) :=
+  if nX.length < 2 then none else some (List.zipWith (· * ·) s (quadMask nX))
+
+/-! ## amplitude_normalise -/
+
+def clip1 (v : Rat) : Rat := if v < -1 then -1 else if 1 < v then 1 else v
+
+def sumR (x : List Rat) : Rat := x.foldr (· + ·) 0
+
+/-- the `while continue_norm and iters < max_iters` loop: `k` iterations already done,
+    `fuel` iterations left; `env` is the envelope of the current iterate `x` -/
+def anLoop (E : Nat → List Rat → Option (List Rat)) (thresh : Rat) :
+    Nat → Nat → List Rat → List Rat → List Rat
+  | 0, _, x, _ => x
+  | fuel + 1, k, x, env =>
+    let x' := List.zipWith (· / ·) x env
+    match E (k + 1) x' with
+    | none => x'
+    | some env' =>
+      if absR (sumR env' - (env'.length : Rat)) < thresh then x'
+      else anLoop E thresh fuel (k + 1) x' env'
+
+/-- `amplitude_normalise` on one column (without the final clip) -/
+def amplitudeNormalise (E : Nat → List Rat → Option (List Rat)) (thresh : Rat) (maxIters : Nat)
+    (x : List Rat) : List Rat :=
+  match E 0 x with
+  | none => x
+  | some env => anLoop E thresh maxIters 0 x env
+
+/-- number of divisions performed and the margin `| |Σenv − n| − thresh |` of the closest
+    stop decision (for the near-tie guard of the harness) -/
+def anTrace (E : Nat → List Rat → Option (List Rat)) (thresh : Rat) :
+    Nat → Nat → List Rat → List Rat → Nat × Option Rat
+  | 0, k, _, _ => (k, none)
+  | fuel + 1, k, x, env =>
+    let x' := List.zipWith (· / ·) x env
+    match E (k + 1) x' with
+    | none => (k + 1, none)
+    | some env' =>
+      let v := absR (sumR env' - (env'.length : Rat))
+      let mg := absR (v - thresh)
+      if v < thresh then (k + 1, some mg)
+      else
+        let r := anTrace E thresh fuel (k + 1) x' env'
+        (r.1, match r.2 with | none => some mg | some m2 => some (if m2 < mg then m2 else mg))
+
+/-- `quad` branch: phase from the quadrature signal `nX + i·q` of the clipped amplitude-normalised
+    IMF (`sqrtT` the `sqrt(1 − nX²)` table), amplitude from the upper envelope of the IMF itself -/
+def Analytic.quadH (O : Analytic) (norm env sqrtT : List Rat → List Rat) (x : List Rat) :
+    List Rat × List Rat :=
+  let nX := (norm x).map clip1
+  let q := (quadImag? nX (sqrtT nX)).getD []
+  (O.post ((nX.zip q).map O.angle), env x)
+
+/-! ## protocol -/
+
+open Protocol in
+def handle (o : Op) : Option String :=
+  match o.name with
+  | "WRAP" => some <| Id.run do
+      let some m := o.rat? "m" | return "bad-op"
+      let some h := o.rat? "h" | return "bad-op"
+      let some mode := o.str? "mode" | return "bad-op"
+      let some xs := o.vec? 0 | return "bad-op"
+      if m ≤ 0 then return "bad-op"
+      if mode = "2pi" then return s!"ok | {fmtVec (xs.map (wrap m))}"
+      else if mode = "-pi2pi" then return s!"ok | {fmtVec (xs.map (wrapCentered m h))}"
+      else return "err ValueError"
+  | "GRAD" => some <| Id.run do
+      let some xs := o.vec? 0 | return "bad-op"
+      match gradient? xs with
+      | none => return "err ValueError"
+      | some g => return s!"ok | {fmtVec g}"
+  | "CUMSUM" => some <| Id.run do
+      let some xs := o.vec? 0 | return "bad-op"
+      return s!"ok | {fmtVec (cumsum xs)}"
+  | "FFP" => some <| Id.run do
+      let some twoPi := o.rat? "twopi" | return "bad-op"
+      let some sr := o.rat? "sr" | return "bad-op"
+      let some p := o.vec? 0 | return "bad-op"
+      if twoPi = 0 then return "bad-op"
+      if p.length < 2 then return "err ValueError"
+      return s!"ok | {fmtVec (freqFromPhase twoPi sr p)}"
+  | "PFF" => some <| Id.run do
+      let some twoPi := o.rat? "twopi" | return "bad-op"
+      let some sr := o.rat? "sr" | return "bad-op"
+      let some start := o.rat? "start" | return "bad-op"
+      let some f := o.vec? 0 | return "bad-op"
+      if sr = 0 then return "bad-op"
+      return s!"ok | {fmtVec (phaseFromFreq twoPi sr start f)}"
+  | "FT" => some <| Id.run do
+      let some halfPi := o.rat? "halfpi" | return "bad-op"
+      let some twoPi := o.rat? "twopi" | return "bad-op"
+      let some sr := o.rat? "sr" | return "bad-op"
+      let some x := o.vec? 0 | return "bad-op"
+      let some u := o.vec? 1 | return "bad-op"
+      let some a := o.vec? 2 | return "bad-op"
+      if twoPi ≤ 0 then return "bad-op"
+      if u.length ≠ x.length ∨ a.length ≠ x.length then return "oracle-desync table lengths"
+      if x.length < 2 then return "err ValueError"
+      let r := frequencyTransform (fun _ => (u, a)) halfPi twoPi sr x
+      return s!"ok | {fmtVec r.1} | {fmtVec r.2.1} | {fmtVec r.2.2}"
+  | "PCS" => some <| Id.run do
+      let some off := o.rat? "off" | return "bad-op"
+      let some twoPi := o.rat? "twopi" | return "bad-op"
+      let some w := o.nat? "wrapped" | return "bad-op"
+      let some u := o.vec? 0 | return "bad-op"
+      if twoPi ≤ 0 then return "bad-op"
+      return s!"ok | {fmtVec (phaseFromComplex off twoPi (w != 0) u)}"
+  | "UNWRAP" => some <| Id.run do
+      let some m := o.rat? "m" | return "bad-op"
+      let some p := o.vec? 0 | return "bad-op"
+      if m ≤ 0 then return "bad-op"
+      -- smallest distance of `dd + m/2` from a multiple of `m` (all float/exact decision boundaries)
+      let mg := (diff p).foldl (fun acc d =>
+        let w := wrap m (d + m / 2)
+        let g := if w < m - w then w else m - w
+        match acc with | none => some g | some a => some (if g < a then g else a)) (none : Option Rat)
+      let mgs := match mg with | none => "none" | some g => fmtRat g
+      return s!"ok margin={mgs} | {fmtVec (unwrap m p)}"
+  | "QUAD" => some <| Id.run do
+      let some nX := o.vec? 0 | return "bad-op"
+      let some s := o.vec? 1 | return "bad-op"
+      if s.length ≠ nX.length then return "oracle-desync table lengths"
+      match quadImag? nX s with
+      | none => return "err IndexError"
+      | some q => return s!"ok | {fmtVec q}"
+  | "AN" => some <| Id.run do
+      let some thresh := o.rat? "thresh" | return "bad-op"
+      let some maxIters := o.nat? "maxit" | return "bad-op"
+      let some clip := o.nat? "clip" | return "bad-op"
+      let some x := o.vec? 0 | return "bad-op"
+      let table := o.vecs.drop 1
+      if table.any (fun e => match e with | some v => v.length ≠ x.length | none => false) then
+        return "oracle-desync table lengths"
+      let E : Nat → List Rat → Option (List Rat) := fun k _ => (table[k]?).join
+      if table.length = 0 then return "bad-op"
+      let y := amplitudeNormalise E thresh maxIters x
+      let y := if clip != 0 then y.map clip1 else y
+      let tr := match E 0 x with
+        | none => ((0 : Nat), (none : Option Rat))
+        | some env => anTrace E thresh maxIters 0 x env
+      if tr.1 + 1 > table.length then return "oracle-desync table too short"
+      let mgs := match tr.2 with | none => "none" | some g => fmtRat g
+      return s!"ok iters={tr.1} margin={mgs} | {fmtVec y}"
+  | _ => none
 
 end Phase
